@@ -410,10 +410,31 @@ func genC09(e *emitter, tier string, seed uint64) map[string]interface{} {
 		var pairs []kv
 		m := map[string]string{}
 		sizes := []int{}
+		caseFamily := rg.intn(6) == 0 // keys that differ only in letter case (a map filled directly, not through Set): the block must still be a function of the map
+		var stem []byte
+		if caseFamily {
+			stem = []byte("KeY-" + string(rune('a'+rg.intn(26))) + string(rune('A'+rg.intn(26))))
+			if np < 2 {
+				np = 2 + rg.intn(3)
+			}
+		}
 		for j := 0; j < np; j++ {
 			p := kv{genItem(rg, true, j), genItem(rg, false, j)}
 			if rg.intn(25) == 0 {
 				p.k = item{data: []byte{}} // empty key
+			}
+			if caseFamily && j < 4 {
+				k := append([]byte{}, stem...)
+				for x := range k {
+					if (j>>uint(x%2))&1 == 1 && x < 3 {
+						if k[x] >= 'a' && k[x] <= 'z' {
+							k[x] -= 32
+						} else if k[x] >= 'A' && k[x] <= 'Z' {
+							k[x] += 32
+						}
+					}
+				}
+				p.k = item{data: k}
 			}
 			ks := string(p.k.bytes())
 			if _, dup := m[ks]; dup {
